@@ -26,6 +26,16 @@ CHECKS = {
          'Every reachable betting state of stack-vector grids (all vectors of {2..6}^3, thorough {1..8}^3; 4-player boundary vectors; straddles, posts, antes, caps, cash/tournament, both warning modes, FL/PL/NL, stud bring-in, draw) is compared with an independently written rules automaton: actor, fold/check-call/bring-in availability and amounts, and acceptance of every raise-to amount 0..max+2 and None, with must-accept / must-refuse / undetermined verdicts.',
          'Two undetermined bands are not judged (counted in the evidence). Stud openers are taken from the engine here (C13 decides them). Stacks are small integers.',
          'DESIGN.md section 4 C03, Appendix A.1'),
+ 'C02': ('model_checking',
+         'explicit-state BFS over the real State for every deal of a tiny deck x every betting/showdown history; terminal states compared with an independent layered pot-award reference computed from the operation log',
+         'Tiny-deck games (6-card two-suit deck, hand types Kuhn-high and Kuhn-high+JQ-low, 2-4 players, 1-2 streets, 1-2 boards, run-outs, trimmed/untrimmed antes, rake): every ordered deal and every history are explored; at each terminal state ChipsPushing totals and payoffs must equal the reference award (layering by contribution, eligibility, per board / hand type / winner split with remainders), plus independent side conditions (dead players win nothing, nobody wins more than he covered, lone survivor takes all).',
+         'Hand evaluation of the 52-card variants is decided by C04/C05; here the distribution logic is decided for all deals of the tiny deck. Pots with no eligible player while >=2 are live are not judged. Exceptions on histories with an explicit muck belong to the C07 known findings.',
+         'DESIGN.md section 4 C02, Appendix A.2'),
+ 'C12': ('model_checking',
+         'explicit-state BFS over the real State (every deal x every history); each terminal state of the default show/muck/kill run compared with a reference award in which every player reaching the showdown tables his hand',
+         'For every showdown reached in the tiny-deck families (side pots, two boards, hi-lo, manual default-argument showdown in any kill order) the payoffs produced by the engine-chosen show/muck and kill decisions equal the reference award with everybody tabling; a hand mucked or killed by default wins nothing in the reference; tournament all-in/final showdowns refuse partial shows (two-hole-card family).',
+         'Same tiny-deck trusted base as C02. Complete mucks at a tournament all-in are not judged.',
+         'DESIGN.md section 4 C12'),
 }
 
 def main():
